@@ -930,6 +930,6 @@ func (x *ckksCtx) checkOutputP(params ckks.Parameters, gap int, key string, out 
 	return nil
 }
 
-var propCKKSShares = h.NewProp("TestPropCKKSShares", h.Budget{Quick: 400, Thorough: 2000}, genCKKSShares, runCKKSShares)
+var propCKKSShares = h.NewProp("TestPropCKKSShares", h.Budget{Quick: 400, Thorough: 3000}, genCKKSShares, runCKKSShares)
 
 func TestPropCKKSShares(t *testing.T) { propCKKSShares.Check(t) }
